@@ -491,18 +491,16 @@ Proof. exact gen_ctx_accessors_fresh. Qed.
 Print Assumptions C20_ctx_accessors_fresh.
 
 (** Hence: WHATEVER the handlers write to the RelRoute they were handed
-    ([lw] arbitrary), routers tried in a row on one context run the same
+    ([lw] arbitrary) and however far they shift the route before returning
+    ([lsh] arbitrary), routers tried in a row on one context run the same
     leaves and give the same answer as with handlers that write nothing -
     dispatch stays a function of the request's own path. *)
-Theorem C20_handler_writes_cannot_redirect : forall le lw fuel rs is c,
-  serve_seq_w gen_dispatch_cond gen_method_reject le (acc_of relroute_name gen_ctx_accessors) lw
+Theorem C20_handler_writes_cannot_redirect : forall le lw lsh fuel rs is c,
+  serve_seq_w gen_dispatch_cond gen_method_reject le (acc_of relroute_name gen_ctx_accessors) lw lsh RestoreEntry
               gen_router_wrap fuel rs is c
   = seq_ref gen_dispatch_cond gen_method_reject le fuel rs is c.
 Proof.
-  intros. rewrite gen_relroute_fresh, gen_router_wrap_ok, serve_seq_w_fresh.
-  pose proof (serve_seq_is_ref gen_dispatch_cond gen_method_reject le fuel rs is c) as H.
-  destruct (serve_seq gen_dispatch_cond gen_method_reject le RWRestoreOnMiss fuel rs is c) as [[hs f] rl].
-  exact H.
+  intros. rewrite gen_relroute_fresh, gen_router_wrap_ok. apply serve_seq_w_fresh.
 Qed.
 Print Assumptions C20_handler_writes_cannot_redirect.
 
@@ -511,9 +509,37 @@ Print Assumptions C20_handler_writes_cannot_redirect.
     "index" and misses; the next router then runs the handler of
     "docs/index".  With the copy it answers Miss. *)
 Theorem C20_alias_accessor_refuted :
-  serve_seq_w dispatch_cond method_reject [(1, 1)] AccAlias ex_lw RWRestoreOnMiss 8 ex_rs_w [0; 1]%nat ex_ctx_w
+  serve_seq_w dispatch_cond method_reject [(1, 1)] AccAlias ex_lw no_shift RestoreEntry RWRestoreOnMiss 8 ex_rs_w [0; 1]%nat ex_ctx_w
     = ([(1%Z, s_secret); (2%Z, [])], 0) /\
-  serve_seq_w dispatch_cond method_reject [(1, 1)] AccFresh ex_lw RWRestoreOnMiss 8 ex_rs_w [0; 1]%nat ex_ctx_w
+  serve_seq_w dispatch_cond method_reject [(1, 1)] AccFresh ex_lw no_shift RestoreEntry RWRestoreOnMiss 8 ex_rs_w [0; 1]%nat ex_ctx_w
     = ([(1%Z, s_secret)], 1).
 Proof. exact alias_accessor_refuted. Qed.
 Print Assumptions C20_alias_accessor_refuted.
+
+(** * Round 3 (seeded change C20-i): Miss restores the position the router was ENTERED with *)
+
+(** One [Serve] call with handlers that write and shift: same answer as
+    without, and on Miss the context is exactly the one handed in - the
+    handler's own [ShiftRoute] included. *)
+Theorem C20_router_miss_restores_entry_position : forall le lw lsh fuel rs i c,
+  fst (serve_ctx_w gen_dispatch_cond gen_method_reject le AccFresh lw lsh RestoreEntry RWRestoreOnMiss fuel rs i c)
+    = nested gen_dispatch_cond gen_method_reject le fuel rs i c /\
+  (is_miss (fst (serve_ctx_w gen_dispatch_cond gen_method_reject le AccFresh lw lsh RestoreEntry RWRestoreOnMiss fuel rs i c)) = true ->
+   snd (serve_ctx_w gen_dispatch_cond gen_method_reject le AccFresh lw lsh RestoreEntry RWRestoreOnMiss fuel rs i c) = c).
+Proof.
+  intros. split; [apply serve_ctx_w_result | apply serve_ctx_w_miss_restores].
+Qed.
+Print Assumptions C20_router_miss_restores_entry_position.
+
+(** Undoing only the router's own shift: GET /u/settings, the handler of
+    the directory "u" shifts by one and declines, the next router runs the
+    handler of "settings". *)
+Theorem C20_undo_own_shift_refuted :
+  serve_seq_w dispatch_cond method_reject [(1, 1)] AccFresh (fun _ => None) ex_lsh UndoOwnShift RWRestoreOnMiss 8
+              ex_rs_sh [0; 1]%nat ex_ctx_sh
+    = ([(1%Z, s_settings); (2%Z, [])], 0) /\
+  serve_seq_w dispatch_cond method_reject [(1, 1)] AccFresh (fun _ => None) ex_lsh RestoreEntry RWRestoreOnMiss 8
+              ex_rs_sh [0; 1]%nat ex_ctx_sh
+    = ([(1%Z, s_settings)], 1).
+Proof. exact undo_own_shift_refuted. Qed.
+Print Assumptions C20_undo_own_shift_refuted.
